@@ -1,6 +1,8 @@
 """C14 part 1: every SAFE / FAST pair returns identical results = the single specification value.
  29 pairs (zz modular / reduction routines, ww comparisons, CLZ / CTZ) are called BY NAME by the arithmetic driver
- (harness/drv_arith.c, lines with ed = safe | fast) and judged by Trace_Arith; the 7 memory / hex pairs by
+ (harness/drv_arith.c, lines with ed = safe | fast) and judged by Trace_Arith; so are the alias macros of zm.h / gfp.h /
+ qr.h (zmAdd, zmSub, zmNeg, zmIsIn, gfpDouble, gfpHalf, qrIsUnity, qrCmp: family "ring"), each expanded once with the
+ callee's default name bound to the regular and once to the fast edition; the 7 memory / hex pairs by
  harness/drv_memsf.c and Trace_MemSF.  safe = spec and fast = spec  =>  safe = fast on every recorded operand."""
 import json
 import vlib
@@ -34,14 +36,15 @@ def run(ctx):
     else:
         da = vlib.harness("drv_arith", ["drv_arith.c"], "rel")
         out = ctx.path("arith_sf.ndjson")
-        rc, _, err = vlib.run_harness(da, ["record", tier, "zz", "mod", "red", "ww", "word"], out_path=out, env={"VERIF_SEED": ctx.seed}, timeout=1500)
+        rc, _, err = vlib.run_harness(da, ["record", tier, "zz", "mod", "red", "ww", "word", "ring"], out_path=out, env={"VERIF_SEED": ctx.seed}, timeout=1500)
         rows = [x for x in (json.loads(l) for l in open(out) if l.strip().endswith("}")) if x.get("ed") in ("safe", "fast")]
         if ctx.quick and len(rows) > 30000:      # the seed picks the subset; every (op, edition, n) keeps its first lines
             keep, seen = [], {}
             for x in rows:
-                k = (x.get("op"), x.get("fn"), x.get("ed"), x.get("n"))
+                ring = x.get("fam") == "qr"          # alias macros: per ring (constructor, strategy, length), sparser
+                k = (x.get("op"), x.get("fn"), x.get("ed"), x.get("n"), x.get("ctor"), x.get("strat"), x.get("no"))
                 seen[k] = seen.get(k, 0) + 1
-                if seen[k] <= 12 or (seen[k] + ctx.seed) % 4 == 0:
+                if seen[k] <= (3 if ring else 12) or (seen[k] + ctx.seed) % (16 if ring else 4) == 0:
                     keep.append(x)
             rows = keep
         n, bad, r = vlib.validate_lines(ctx, "Trace_Arith", rows, timeout=3000)
